@@ -39,4 +39,29 @@ PROPS = {
                        "property, against a trivial reference. Every run is replayable from its choice sequence; failures are minimised and re-verified in a fresh process."),
         "level_note": "Trusts the reference arithmetic in crates/check-s/src/c11.rs and that iosim's streams stay within what real streams may do. Engine S runs no runtime or driver code.",
     },
+    "C12": {
+        "title": "Blocking-style and poll-style adapters are lossless FIFO pipes",
+        "engine": "S",
+        "package": "check-s",
+        "bin": "check-s",
+        "design_ref": "§3, §7 C12",
+        "technique": "deterministic simulation: SyncStream driven by generated call programs and AsyncStream driven by 3-7 simulated tasks (one per poll entry point, feeder, drainer, flusher) over fault-injecting in-memory channels; byte-log equality, limit and lost-wake (deadlock) oracles; choice-sequence minimisation and replay",
+        "tiers": {
+            "quick": {"runs": 3_000_000, "time_limit_s": 60},
+            "thorough": {"runs": 200_000_000, "time_limit_s": 1500},
+        },
+        "rule": S_RULE,
+        "real": S_REAL,
+        "stub": S_STUB,
+        "assumptions": [
+            "one task per poll entry point (poll_read / poll_read_uninit / poll_fill_buf; poll_write+poll_close / poll_flush): a futures-style stream keeps one waker per entry point",
+            "inner-stream errors are retryable (Interrupted) or fire at most once (hard error, Ok(0) write) and lose no data, so final byte equality is demanded even after them",
+            "a hold-until-flush transport with a full buffer releases it by itself (as a buffered writer does); otherwise a bounded buffering transport would deadlock by construction",
+            "sampling, not enumeration",
+        ],
+        "level_text": ("Seeded exploration of call programs (sync side) and task interleavings (poll side) against transports that are short, pending, interrupted, fail once, "
+                       "hold data until flush and exert back-pressure; oracles: accepted-vs-delivered byte logs in both directions (prefix always, equal after flush/at EOF), "
+                       "size limits observed at fill_buf/flush, progress after flush/fill, and deadlock = a parked task nobody will wake."),
+        "level_note": "Trusts iosim's channel model and the executor's deadlock detection; the write-side buffer size is only observable through the byte count a complete flush reports.",
+    },
 }
